@@ -99,9 +99,38 @@ def vec_string_validators(F, R):
         okr = len(gu) == 1 and body.edge_dominates((sbb, ff), gu[0][0])
         if kind == "vec":
             want = "slice::get_unchecked(gv::data(deref(THIS)), RangeTo{%s})" % lenf
-            okr = okr and ab(canon(body.expr_of_call(gu[0][1], 0, gu[0][0]))) == want
+            got = ab(canon(body.expr_of_call(gu[0][1], 0, gu[0][0]))) if gu else ""
+            zst_ok = False
+            if got == "slice::get_unchecked(gv::data(deref(THIS)), RangeTo{%count})":
+                # count = len, except for a zero-sized element type (unbounded capacity): there one element stands for all
+                stores = {}
+                for bb_, i_, s_ in body.assigns():
+                    if not s_["l"]["p"] and body.local_name(s_["l"]["v"]) == "count":
+                        stores.setdefault(ab(canon(body.expr_of_rvalue(s_["r"]))), []).append(bb_)
+                for bb_, t_ in body.calls():
+                    dl = t_.get("dest")
+                    if dl and not dl["p"] and body.local_name(dl["v"]) == "count" and t_.get("target") is not None:
+                        stores.setdefault(ab(canon(body.expr_of_call(t_, 0, bb_))), []).append(t_["target"])
+                zs = None
+                for sb2, st2 in body.switches():
+                    n_ = norm_cmp(body.expr_of_operand(st2["switch"]), True)
+                    if n_ and n_[0] == "Eq" and {canon(n_[1]), canon(n_[2])} == {"0", "<T as FlatSized>::SIZE"}:
+                        ft2 = [b_ for v, b_ in st2["targets"] if int(v) == 0]
+                        zs = (sb2, st2["otherwise"], ft2[0]) if ft2 else None
+                mn = "core::cmp::Ord::min(%s, 1)" % lenf
+                if zs and set(stores) == {lenf, mn}:
+                    zst_ok = all(body.edge_dominates((zs[0], zs[1]), x) for x in stores[mn]) and \
+                        all(body.edge_dominates((zs[0], zs[2]), x) for x in stores[lenf])
+                if zst_ok:
+                    want = got
+            okr = okr and got == want
             R.ob("V1.elements-range", fn, "data[..len]", okr,
-                 "%s: exactly the first len() elements of the view's data are inspected, after the capacity check" % fn, where=b["span"])
+                 "%s: exactly the first len() elements of the view's data are inspected (one representative when the element type is zero-sized), after the capacity check" % fn,
+                 where=b["span"])
+            if R.pid in ("C01", "C10"):
+                R.ob("V1.zst-bounded", fn, "loop-bound", zst_ok,
+                     "%s: the number of element checks is bounded by the input: len <= capacity = bytes / SIZE for SIZE > 0, and at most one check when SIZE == 0 "
+                     "(the capacity of a vector of zero-sized elements is unbounded, so `len` alone is an attacker-chosen 2^64)" % fn, where=b["span"])
             # element loop: enumerate over that slice, validate_ptr(as_ptr(x)) for T, error offset DATA_OFFSET + i*SIZE
             vp = [c for c in find_calls(body, "FlatValidate::validate_ptr") if c[1]["call"]["args"] == ["T"]]
             oke = len(vp) == 1
@@ -186,15 +215,66 @@ def flex_validator(F, R):
         e = ab(canon(body.expr_of_call(vc[0][1], 0, vc[0][0])))
         ok = e.startswith("FlatValidate::validate((Try((<fc::flex::DataIter<'a, T, L, D> as core::iter::traits::iterator::Iterator>::next(") and e.endswith("as Some).0) as Continue).0)")
     R.ob("V1.flex-items", fn, "items", ok, "%s: every item the chain walk yields is fully validated as T (alignment, size and content)" % fn, where=b["span"])
-    offs = [ab(r) for c in closures_of(F, b) for r in the_return(Body(c))]
-    want = "flatty_base::error::Error::offset($e, Add($1.0, OFFSET_SIZE))"
-    okp = False
-    for bb, i, s in body.assigns():
-        if not s["l"]["p"] and body.local_name(s["l"]["v"]) == "pos":
-            okp = ab(canon(body.expr_of_rvalue(s["r"]))).endswith(".1") and "DataIter" in ab(canon(body.expr_of_rvalue(s["r"])))
-    R.ob("E1.err-offset", fn, "item", offs == [want] and okp,
-         "%s: an item's error is shifted by the position of its slot (read before the step) + OFFSET_SIZE%s" % (fn, "" if offs == [want] else " -- found %s" % offs),
+    # the error mapper of an item: captures (in some order) the slot position read BEFORE the step and `sealed` = the walker still has data
+    # AFTER the step; it shifts by pos + OFFSET_SIZE and turns the shortfall of a sealed item into a content error
+    cls = closures_of(F, b)
+    me = find_calls(body, "map_err")
+    okp, oks, okk = False, False, False
+    offs, why = [], ""
+    nx = [bb for bb, t in body.calls() if call_matches(body.expr_of_call(t, 0, bb), "Iterator::next", "next")]
+    if len(cls) == 1 and len(me) == 1 and len(nx) == 1:
+        cb = Body(cls[0])
+        offs = [ab(r) for r in the_return(cb)]
+        caps = strip(body.expr_of_call(me[0][1], 0, me[0][0])[3][1])
+        capv = [ab(canon(x)) for x in caps[2]] if caps[0] == "agg" else []
+        ipos = [i for i, c in enumerate(capv) if c.endswith(".1") and "DataIter" in c and "is_some" not in c]
+        iseal = [i for i, c in enumerate(capv) if c.startswith("core::option::Option::<T>::is_some(") and c.endswith(".0)") and "DataIter" in c]
+        okpos = False
+        if len(ipos) == 1:
+            # pos is read before next()
+            for bb, i, s_ in body.assigns():
+                if not s_["l"]["p"] and body.local_name(s_["l"]["v"]) == "pos":
+                    okpos = body.dominates(bb, nx[0]) and ab(canon(body.expr_of_rvalue(s_["r"]))) == capv[ipos[0]]
+            okp = okpos and offs in (["flatty_base::error::Error::offset($e, Add($1.%d, OFFSET_SIZE))" % ipos[0]],
+                                     ["flatty_base::error::Error::offset(Error{%%kind, $e.1}, Add($1.%d, OFFSET_SIZE))" % ipos[0]])
+        if len(ipos) == 1 and len(iseal) == 1:
+            # is_some(data) is evaluated after next()
+            isc = [bb for bb, t in body.calls() if call_matches(body.expr_of_call(t, 0, bb), "is_some")]
+            oks = len(isc) == 1 and body.dominates(nx[0], isc[0]) and isc[0] != nx[0]
+            # kind: e.kind, except InsufficientSize under `sealed` -> InvalidData
+            kinds = {}
+            for bb, i, s_ in cb.assigns():
+                if not s_["l"]["p"] and cb.local_name(s_["l"]["v"]) == "kind":
+                    kinds.setdefault(ab(canon(cb.expr_of_rvalue(s_["r"]))), []).append(bb)
+            insuf = None
+            seal_t = None
+            for sbb, st in cb.switches():
+                c = canon(cb.expr_of_operand(st["switch"]))
+                if c == "discr($e.0)":
+                    t0 = [tb for v, tb in st["targets"] if int(v) == 0]   # ErrorKind::InsufficientSize has discriminant 0 (checked below)
+                    insuf = (sbb, t0[0]) if t0 else None
+                elif c == "$1.%d" % iseal[0]:
+                    seal_t = (sbb, st["otherwise"])
+            ek = F.adts.get("flatty_base::error::ErrorKind")
+            d0 = ek and [v["name"] for v in ek["variants"] if int(v["discr"]) == 0] == ["InsufficientSize"]
+            if set(kinds) == {"$e.0", "InvalidData{}"} and insuf and seal_t and d0:
+                inv = kinds["InvalidData{}"]
+                okk = all(cb.edge_dominates(insuf, x) and cb.edge_dominates(seal_t, x) for x in inv) and \
+                    not any(cb.edge_dominates(insuf, x) and cb.edge_dominates(seal_t, x) for x in kinds["$e.0"])
+            else:
+                why = " -- kind stores %s" % sorted(kinds)
+        else:
+            why = " -- captures %s" % [c[:60] for c in capv]
+    else:
+        why = " -- expected one error-mapping closure, one map_err and one next() (%d, %d, %d)" % (len(cls), len(me), len(nx))
+    R.ob("E1.err-offset", fn, "item", okp,
+         "%s: an item's error is shifted by the position of its slot (read before the step) + OFFSET_SIZE%s" % (fn, "" if okp else " -- found %s%s" % (offs, why)),
          where=b["span"])
+    if R.pid in ("C06", "C10"):   # classification of errors (framing contract); positions and accepted sets are not affected by it
+      R.ob("K1.sealed-shortfall", fn, "item-kind", oks and okk,
+           "%s: the validation error of a sealed (not last) item is never InsufficientSize: its extent is fixed, so a shortfall inside it is reported as "
+           "InvalidData (sealed = the walker still holds data after the step); every other kind, and the open last item's shortfall, pass unchanged%s" % (fn, why),
+           where=b["span"])
 
 
 # ------------------------------------------------------------------------------------ flex chain: reader
@@ -410,6 +490,12 @@ def flex_writers(F, R):
     others = [bb for bb, t in body.calls() if bb not in z and t["call"].get("def", "").endswith(("Emplacer::emplace", "Iterator::next"))]
     ok = len(z) == 1 and all(body.dominates(z[0], o) for o in others)
     R.ob("R3.reset-first", fn, "zero-first", ok, "%s: the vector is reset to the empty state before the first item is attempted" % fn, where=b["span"])
+    if R.pid == "C18":
+        # the other clause of C18 ("too little room: left unchanged") cannot hold for a source of unknown length: the reset comes first by design
+        errs_after_reset = [bb for bb, r in ret_stores(body) if r.startswith("Err{") and z and body.dominates(z[0], bb)]
+        R.ob("R5.unchanged-on-refusal", "FromIterator::emplace_unchecked", "modifies-before-knowing", not errs_after_reset,
+             "vec::/flex::FromIterator emplacers refuse content that does not fit only after the target was reset and partly refilled (one pass over a source of "
+             "unknown length): a refused assign_in_place leaves a valid but CHANGED target", where=b["span"])
     # between MAX store of item k and sealing of k-1 nothing can fail except slot stores
     slot_bbs = {bb for bb, _, _, _ in ss}
     bad = []
@@ -440,6 +526,13 @@ def flex_writers(F, R):
     R.ob("T1.truncate-terminator", fn, "store", ok,
          "%s: the only store is a zero terminator into the slot the cursor stands on, and only if such a slot exists%s" % (fn, "" if ok else " -- found %s" % [(v, d) for _, _, v, d in ss]),
          where=b["span"])
+    if R.pid == "C17":
+        # one encoding per content: after truncate/pop the last remaining item would have to be re-opened (L::MAX in its own slot); the code
+        # terminates the chain behind it instead, so the same content has an "open" and a "sealed + terminator" image (sizes differ)
+        reopen = any(v == "MAX" for _, _, v, _ in ss)
+        R.ob("P9.flex-one-encoding", fn, "terminates-instead-of-reopening", reopen and not any(v == "ZERO" for _, _, v, _ in ss),
+             "FlexVec::truncate/pop end the chain with a zero slot behind the last remaining item instead of re-opening that item: the same sequence has two "
+             "encodings (open last item after push / FromIterator, sealed item + terminator after pop / truncate) with different size()", where=b["span"])
     nth = find_calls(body, "Iterator::nth")
     okc = len(nth) == 1 and ab(canon(body.expr_of_call(nth[0][1], 0, nth[0][0]))) == "core::iter::traits::iterator::Iterator::nth(fc::flex::FlexVec::<T, L>::bytes_mut_iter($self), Sub($len, 1))"
     if okc:
@@ -656,6 +749,11 @@ def filling_emplacers(F, R):
             if em and not all(body.dominates(em[0][0], e) for e in err_bbs):
                 ok4 = False
                 why.append("an error exit is taken before the target was reset to empty (for a source of unknown length a pre-check cannot replace the reset)")
+            if R.pid == "C18":
+                after = [e for e in err_bbs if em and body.dominates(em[0][0], e)]
+                R.ob("R5.unchanged-on-refusal", "FromIterator::emplace_unchecked", "modifies-before-knowing", not after,
+                     "vec::/flex::FromIterator emplacers refuse content that does not fit only after the target was reset and partly refilled (one pass over a source of "
+                     "unknown length): a refused assign_in_place leaves a valid but CHANGED target", where=b["span"])
             R.ob("E4.all-or-error", fn, "fill-loop", ok4,
                  "%s: every item of the source is appended with the fallible push; the first refusal returns InsufficientSize; Ok only when the source is exhausted%s" % (
                      fn, "" if ok4 else " -- " + "; ".join(why)), where=b["span"])
